@@ -392,7 +392,7 @@ impl Scenario for Parse {
     fn budget(&self, tier: &Tier) -> (u64, u64) {
         match tier {
             Tier::Quick => (300_000, 40),
-            Tier::Thorough => (30_000_000, 1500),
+            Tier::Thorough => (30_000_000, 600),
         }
     }
 
@@ -630,7 +630,7 @@ impl E2Run for Run {
     fn budget(&self, tier: &Tier) -> (u64, u64) {
         match tier {
             Tier::Quick => (60_000, 40),
-            Tier::Thorough => (5_000_000, 3000),
+            Tier::Thorough => (5_000_000, 1200),
         }
     }
 
